@@ -133,6 +133,9 @@ SETTING_CLASSES = {
     "trace_mode": S.trace_mode,
     "debug": S.debug,
     "num_gauss_hermite_locs": S.num_gauss_hermite_locs,
+    "min_preconditioning_size": S.min_preconditioning_size,
+    "max_preconditioner_size": S.max_preconditioner_size,
+    "deterministic_probes": S.deterministic_probes,
 }
 
 
